@@ -23,7 +23,7 @@ RULE = ("(1) EVERY checkpointed height (all 327 of the pinned table): a candidat
         "distinct = (height, id).")
 ASSUMPTIONS = ["pinned copies of the checkpoint table and of the recorded blocks in vf/data/ (taken from the pinned commit)",
                "deep bases are fabricated (filler ancestors)", "the scrypt python package with the documented parameters is the arbiter for (3)/(4)"]
-MIN_NONTRIVIAL = {"quick": 1500, "thorough": 40000}
+MIN_NONTRIVIAL = {"quick": 1500, "thorough": 30000}
 
 DATA = os.path.join(os.path.dirname(os.path.dirname(os.path.abspath(__file__))), "data")
 
